@@ -359,10 +359,17 @@ def configs(tier):
                                     c['m'] = n
                                 out.append((f'op-{cls}{pol}-{op}{"-r" if refl else ""}-n{n}-{"an" if an else "a"}-{okind}{"n" if bn else ""}-{vt}',
                                             scen_binop, c, {}))
-    # mixed dtype operands
-    for a_vt, b_vt in (('int', 'float'), ('float', 'complex'), ('int', 'complex')):
-        out.append((f'op-mixed-{a_vt}-{b_vt}', scen_binop, dict(cls='es', n=2, pol=1, a_noise=True, vtype=a_vt, ovtype=b_vt, op='add',
-                                                                 other='obj', reflected=False, b_noise=True, m=2), {}))
+    # mixed dtype operands, every noise pattern, both orders of the wider/narrower dtype
+    for a_vt, b_vt in (('int', 'float'), ('float', 'complex'), ('int', 'complex'), ('float', 'int'), ('complex', 'float')):
+        for an in (False, True):
+            for bn in (False, True):
+                for op in (('add', 'sub') if q else ('add', 'sub', 'mul')):
+                    for okind, n in ((('obj', 2),) if q else (('obj', 2), ('obj1', 3))):
+                        out.append((f'op-mixed-{a_vt}-{b_vt}-{op}-{"an" if an else "a"}-{"bn" if bn else "b"}-{okind}', scen_binop,
+                                    dict(cls='es', n=n, pol=1, a_noise=an, vtype=a_vt, ovtype=b_vt, op=op, other=okind, reflected=False, b_noise=bn, m=n), {}))
+    for cls, pol in (('os', 1), ('os', 2)):
+        out.append((f'op-mixed-{cls}{pol}-float-complex', scen_binop, dict(cls=cls, n=2, pol=pol, a_noise=False, vtype='float', ovtype='complex', op='add',
+                                                                       other='obj', reflected=False, b_noise=True, m=2), {}))
     # slices
     for cls, pol in (('es', 1), ('os', 1), ('os', 2)):
         for noise in (False, True):
